@@ -66,6 +66,7 @@ func e2eChild() {
 			exclusion(ap, a.Batch, i)
 			createRace(ap, a.Batch, i)
 			staleDelete(ap, a.Batch, i)
+			flipHTTP(ap, a.Batch, i)
 			preconditions(ap, a.Batch, i, a.Headers)
 		}(i)
 	}
@@ -184,6 +185,8 @@ func main() {
 	if !replaying {
 		run.FloorCounter("acked_appends_verified", 300)
 		run.FloorCounter("refused_updates_observed", 100)
+		run.FloorCounter("constant_size_chains_verified", int64(batches*scen/2))
+		run.FloorCounter("tag_body_pairs_checked", 1000)
 		run.FloorCounter("create_races_one_winner", int64(batches*scen))
 		run.FloorCounter("stale_deletes_refused", int64(batches*scen))
 		run.FloorCounter("current_tag_deletes_accepted", int64(batches*scen))
